@@ -363,12 +363,16 @@ Definition encode_ack (delay : Z) (rs : list (Z * Z)) (ecn : option (Z * Z * Z))
 Definition b2z (b : bool) : Z := if b then 1 else 0.
 
 (** [ConnectionClose::encode] / [ApplicationClose::encode] with the reason truncated to fit
-    [max_len]; [extra] is the size of the frame-type varint (0 for APPLICATION_CLOSE). *)
+    [max_len]: the budget for the reason is [max_len - 1 - extra - size(reason.len())] where
+    [extra] is the size of the error code (plus the size of the frame-type varint for
+    CONNECTION_CLOSE); each subtraction is a checked [usize] subtraction.
+    (Before the repair of the defect reported for C10 the encoder reserved a constant 3 bytes for
+    type and error code, so that a 4- or 8-byte application error code overran [max_len].) *)
 Definition close_reason_len (max_len extra reason_len : Z) : option Z :=
   match Varint.size reason_len with
   | None => None
   | Some sl =>
-      match u64_sub max_len 3 with
+      match u64_sub max_len 1 with
       | None => None
       | Some m1 =>
           match u64_sub m1 extra with
@@ -414,18 +418,22 @@ Definition encode_frame (withlen : bool) (max_len : Z) (f : frame) : option (lis
   | PathChallenge v => ocat [wv 26; u64_bytes v]
   | PathResponse v => ocat [wv 27; u64_bytes v]
   | CloseConn code fty reason =>
-      match Varint.size fty with
-      | None => None
-      | Some sf =>
-          match close_reason_len max_len sf (zlen reason) with
+      match Varint.size code, Varint.size fty with
+      | Some sc, Some sf =>
+          match close_reason_len max_len (sc + sf) (zlen reason) with
           | None => None
           | Some n => ocat [wv 28; wv code; wv fty; wv n; Some (firstn (Z.to_nat n) reason)]
           end
+      | _, _ => None
       end
   | CloseApp code reason =>
-      match close_reason_len max_len 0 (zlen reason) with
+      match Varint.size code with
+      | Some sc =>
+          match close_reason_len max_len sc (zlen reason) with
+          | None => None
+          | Some n => ocat [wv 29; wv code; wv n; Some (firstn (Z.to_nat n) reason)]
+          end
       | None => None
-      | Some n => ocat [wv 29; wv code; wv n; Some (firstn (Z.to_nat n) reason)]
       end
   | Datagram d => ocat [wv (48 + b2z withlen); if withlen then wlen_bytes d else Some d]
   | AckFrequency a b c d => ocat [wv 175; wv a; wv b; wv c; wv d]
@@ -785,18 +793,26 @@ Definition wf_desc_enc (ds : desc) : bool :=
   | DAck delay rs None => in62 delay && wf_ranges rs
   end.
 
+(** [max_len] covers what [Close::encode] reserves (otherwise its subtraction underflows). *)
 Definition close_fits (max_len : Z) (ds : desc) : bool :=
   match ds with
-  | DFrame (CloseConn _ fty reason) =>
-      match Varint.size fty, Varint.size (zlen reason) with
-      | Some sf, Some sl => (3 + sf + sl <=? max_len) && (max_len <=? U64_MAX)
+  | DFrame (CloseConn code fty reason) =>
+      match Varint.size code, Varint.size fty, Varint.size (zlen reason) with
+      | Some sc, Some sf, Some sl => (1 + sc + sf + sl <=? max_len) && (max_len <=? U64_MAX)
+      | _, _, _ => false
+      end
+  | DFrame (CloseApp code reason) =>
+      match Varint.size code, Varint.size (zlen reason) with
+      | Some sc, Some sl => (1 + sc + sl <=? max_len) && (max_len <=? U64_MAX)
       | _, _ => false
       end
-  | DFrame (CloseApp _ reason) =>
-      match Varint.size (zlen reason) with
-      | Some sl => (3 + sl <=? max_len) && (max_len <=? U64_MAX)
-      | None => false
-      end
+  | _ => true
+  end.
+
+(** The encoded CLOSE frame never exceeds [max_len]. *)
+Definition close_len_ok (max_len : Z) (ds : desc) (b : list Z) : bool :=
+  match ds with
+  | DFrame (CloseConn _ _ _) | DFrame (CloseApp _ _) => zlen b <=? max_len
   | _ => true
   end.
 
@@ -815,7 +831,7 @@ Definition oracle_step (op out : list Z) : bool :=
             match out with
             | 0 :: b =>
                 match decode_out b with
-                | Some o => expect_roundtrip ds o
+                | Some o => expect_roundtrip ds o && close_len_ok max_len ds b
                 | None => false
                 end
             | _ => false
